@@ -287,6 +287,61 @@ def rule_retry(ctx, rep):
     pat.require(n >= 12, "only %d retry back-edges found in the lock-free operations (hand-confirmed: >= 12)" % n)
 
 
+def rule_casretry(ctx, rep):
+    """CAS retry discipline: inside a retry loop, the value a compare-and-swap expects on its next attempt is what the location
+    was last seen to hold - the value the failed CAS returned, or a fresh load of the same field.  An expected value refreshed
+    from a *different* location (e.g. ht->size for a CAS on ht->resize_target) can stay wrong for as long as another thread is
+    suspended half-way, and the lock-free operation spins on it."""
+    n = 0
+    for lib, name in LOCKFREE:
+        f = ctx.fn(lib, name)
+        rep.touch(f)
+        comps = f.sccs()
+        for e in pat.accesses(f, None, ("cmpxchg",)):
+            c = e.inst
+            inl = [cp for cp in comps if c.blk.id in cp]
+            if not inl or e.exp is None:
+                continue
+            comp = max(inl, key=len)
+            fld = pat.last_field(e.ap)
+            x = f.inst_of(ir.strip_casts(f, e.exp))
+            if x is None or x.op != "phi":
+                continue
+            leaves, seen, st = [], set(), [x]
+            while st:
+                ph = st.pop()
+                if ph.id in seen:
+                    continue
+                seen.add(ph.id)
+                for v, b in ph.d["inc"]:
+                    if b not in comp:
+                        continue            # initial value, from before the loop
+                    vi = f.inst_of(ir.strip_casts(f, v))
+                    if vi is not None and vi.op == "phi":
+                        st.append(vi)
+                    else:
+                        leaves.append((v, vi))
+            if not leaves:
+                continue
+            n += 1
+            bad = []
+            for v, vi in leaves:
+                ok = False
+                if vi is not None and vi.op in ("asm", "cmpxchg", "rmw"):
+                    ve = mm.effect_of(vi)
+                    ok = ve is not None and ve.ap is not None and pat.last_field(ve.ap) == fld
+                elif vi is not None and vi.op == "load":
+                    # a load from the thread's own stack (an iterator filled by a preceding search) carries a snapshot of the
+                    # location, not another shared word
+                    ok = pat.last_field(vi.d["ap"]) == fld or is_local(f, vi.d["ap"])
+                if not ok:
+                    bad.append(ir.expr_str(ir.expr(f, v, 3)))
+            rep.check(not bad, "C17.casretry", "%s.%s@%d" % (name, (fld or "?").split(".")[-1], c.id), "on retry the CAS on %s expects the value it returned / a fresh load of that field" % fld,
+                      "in its retry loop the CAS on %s takes its next expected value from %s: not the location's own last seen value - while another thread keeps that "
+                      "other word unchanged (suspended mid-operation) the CAS fails for ever" % (fld, bad), [c.where()])
+    pat.require(n >= 10, "only %d CAS retry loops found" % n)
+
+
 RULES = [
     ("C17.helping", rule_helping),
     ("C17.waitfree", rule_waitfree),
@@ -294,5 +349,6 @@ RULES = [
     ("C17.lockfree", rule_lockfree),
     ("C17.nonblocking", rule_nonblocking),
     ("C17.retry", rule_retry),
+    ("C17.casretry", rule_casretry),
 ]
 FLOORS = {}
